@@ -463,6 +463,14 @@ func c14Scenarios(tier string) []*Scenario {
 	add := func(in []*Scenario, keep func(string) bool) {
 		for _, sc := range withLeakInvariant(monitorOnly("c14/union/", "C14", in)) {
 			if keep == nil || keep(sc.Name) {
+				// an execution that never ends keeps its goroutines and table entries for ever
+				sc.Check = func(w *World, x *Exec) []Violation {
+					vs := NoHang(x, "C14")
+					for i := range vs {
+						vs[i].Rule, vs[i].Sig = "no-goroutine-left", "leak:never-ends:"+vs[i].Sig
+					}
+					return vs
+				}
 				scs = append(scs, sc)
 			}
 		}
